@@ -4,6 +4,7 @@ import (
 	"bytes"
 	"fmt"
 	"math/rand"
+	"os"
 	"sort"
 	"strings"
 	"testing"
@@ -213,6 +214,26 @@ func (c compactEngine) Execute(p *Plan) *RunResult {
 			desc := "after the last call"
 			if pt.k < len(j) {
 				desc = fmt.Sprintf("in flight: %s by task %d", j[pt.k], j[pt.k].Task)
+			}
+			if os.Getenv("VERIF_DEBUG") != "" {
+				for _, ev := range cr.hist {
+					fmt.Printf("DEBUG hist task%d %s inv=%d ret=%d n=%d err=%q\n", ev.Task, ev.Op.String(), ev.Inv, ev.Ret, ev.N, ev.Err)
+				}
+				for i := 0; i <= pt.k && i < len(j); i++ {
+					if strings.HasSuffix(j[i].Name, ".pix") {
+						continue
+					}
+					fmt.Printf("DEBUG j[%d] stamp=%d task=%d %s\n", i, cr.stamps[i], j[i].Task, j[i])
+				}
+				files := ImageFiles(im)
+				segs, _ := ListSegments(files, "db")
+				for _, sn := range segs {
+					recs, vl, why := DecodeSegment(files[sn.Path])
+					fmt.Printf("DEBUG segment %+v len=%d valid=%d %s\n", sn, len(files[sn.Path]), vl, why)
+					for _, r := range recs {
+						fmt.Printf("DEBUG    %+v\n", r)
+					}
+				}
 			}
 			v.Detail = fmt.Sprintf("crash at journal[%d/%d] stamp %d (%s) cut=%d: %s", pt.k, len(j), s, desc, pt.cut, v.Detail)
 			res.V = v
